@@ -636,11 +636,20 @@ class _token_runner:
             and after the identifier. None if no `identifier` is found
         """
         last_identifier = None
+        previous_identifier = None
+        last_was_name = False
         for t in self._tokenizer:
             if t.type == tokenize.NAME:
                 if t.string in identifier:
                     return last_identifier, t
+                previous_identifier = last_identifier
                 last_identifier = t
+                last_was_name = True
+                continue
+            if last_was_name and t.type == tokenize.OP and t.string == "=":
+                # `name=` is a keyword of the call being scanned, not the name of the called method
+                last_identifier = previous_identifier
+            last_was_name = False
             if t.type == tokenize.NEWLINE and not can_encounter_newline:
                 break
         return None, None
